@@ -3,6 +3,9 @@ from props import *  # noqa: F401,F403
 # ------------------------------------------------------------------------------------------------
 rc_bin("c07_rc", ["harness/c07_histogram.cc"], lib=True)
 rc_bin("c07_rc_abi2", ["harness/c07_histogram.cc"], lib=True, abi=2)
+rc_bin("c07_sched", ["harness/c06_sched.cc"], lib=False, defines=["VH_SCHED_HIST", 'VH_PROP_ID=\\"C07\\"'],
+       shadow=["api/include/opentelemetry/common/spin_lock_mutex.h"], shadow_globs=METRICS_SHADOW_GLOBS,
+       shadow_srcs_globs=METRICS_SHADOW_SRCS_GLOBS, repo_srcs_globs=METRICS_PLAIN_GLOBS)
 PROPS["C07"] = dict(
     level_text="Reference-model property tests (rapidcheck, ASan/UBSan) at two levels: the Long/Double histogram "
                "aggregation classes directly (Aggregate, Merge in generated binary-tree orders, Diff, ToPoint, clones "
@@ -64,6 +67,8 @@ PROPS["C07"] = dict(
         SC_NOTE,
     ],
     runs=[
+        # measurements racing collections under generated schedules (the metrics SDK under the scheduler shim, see harness/c06_sched.cc)
+        run("hist-sched", "c07_sched", "hist_sched", "rc", dict(procs=3, cases=15000), dict(procs=6, cases=200000), asan_extra=SCHED_ASAN),
         run("agg-double", "c07_rc", "agg_double", "rc", dict(procs=4, cases=30000), dict(procs=5, cases=500000)),
         run("agg-long", "c07_rc", "agg_long", "rc", dict(procs=4, cases=30000), dict(procs=5, cases=500000)),
         # fixed witness of the open known finding C07-u64-above-int64-max: replay only (known/C07/), no search budget
